@@ -247,7 +247,10 @@ def run_require(ctx, U, s, lp, hostile, form=None, literal=None, home=None, main
     elif '"' in s or '\\' in s:
         return
     if form is None:
-        form = ('paren', 'paren', 'paren', 'string_call', 'long_string_call', 'nested_string_call')[hash((s, lp)) % 6] if ']]' not in s and "'" not in s else 'paren'
+        # (chosen by a checksum of the case, not by hash(): the same case takes the same form in every process)
+        import zlib
+        form = ('paren', 'paren', 'paren', 'string_call', 'long_string_call', 'nested_string_call')[
+            zlib.crc32(('%s|%s|%d' % (s, lp, hostile)).encode('utf-8', 'surrogateescape')) % 6] if ']]' not in s and "'" not in s else 'paren'
     with open(main, 'wb') as fh:
         if form == 'literal':
             fh.write(b'q=1\nrequire("' + literal + b'")\n')
@@ -538,7 +541,8 @@ def run_shard(spec, ctx):
                     poison(ctx, U)
                     for s_ in ('../x', '..', 'sub/../../x', 'x'):
                         for lp in LOAD_PATHS:
-                            run_require(ctx, U, s_, lp, hostile)
+                            for form in ('paren', 'string_call', 'long_string_call', 'nested_string_call'):
+                                run_require(ctx, U, s_, lp, hostile, form=form)
                     # the same name resolved under a permissive load path first, then under a restrictive one
                     for s_ in ('x', 'lib', 'init', 'sub/x'):
                         for lp_first in ('env', 'abs'):
@@ -696,9 +700,9 @@ def run_shard(spec, ctx):
                 if idx % 4 == 0:
                     run_include(ctx, U, s, '.p8', 'plain', hostile)
                 if '?' not in s:
-                    run_require(ctx, U, s, LOAD_PATHS[idx % 5], hostile)
+                    run_require(ctx, U, s, LOAD_PATHS[idx % 5], hostile, form='paren' if '"' not in s and '\\' not in s else None)
                     run_require(ctx, U, s, LOAD_PATHS[(idx + 2) % 5], hostile)
-                    run_require(ctx, U, s, 'q_lib', hostile) if idx % 2 else None
+                    run_require(ctx, U, s, 'q_lib', hostile, form='paren' if '"' not in s and '\\' not in s else None) if idx % 2 else None
             ctx.feature('strings_enumerated')
         ctx.sample({'include_string': '../rootbar/x.lua', 'require_string': '..', 'universe': sorted(os.listdir(U))})
     finally:
